@@ -66,8 +66,16 @@ ARITY = {"bphp": 2, "cliquecoloring": 3, "count": 2, "cpls": 3, "parity": 1, "pi
          "rphp": 3, "vdw": 3}
 
 
+CORPUS = [("pitfall", ["2", "2", "2", "2", "2"]), ("pitfall", ["4", "5", "2", "2", "2"]), ("pitfall", ["4", "3", "1", "2", "2"]),
+          ("pitfall", ["4", "3", "1", "1", "2"]), ("pitfall", ["4", "3", "1", "2", "3"]), ("pitfall", ["3", "1", "1", "2", "2"]),
+          ("cpls", ["2", "3", "4"]), ("cpls", ["1", "4", "2"]), ("cpls", ["0", "2", "2"]), ("bphp", ["0", "3"]), ("bphp", ["3", "0"]),
+          ("count", ["4", "0"]), ("count", ["0", "1"]), ("ram", ["0", "3", "5"]), ("ram", ["3", "3", "0"]), ("ptn", ["-1"]),
+          ("ptn", ["0"]), ("rphp", ["0", "0", "0"]), ("cliquecoloring", ["0", "1", "1"]), ("vdw", ["0", "1", "1"]),
+          ("vdw", ["5", "2", "2", "0"]), ("php", ["-1"]), ("php", ["3", "-2"]), ("op", ["-1"]), ("op", ["--total", "--smart", "3"])]
+
+
 def lines(rng, tier):
-    out = []
+    out = list(CORPUS)
     for name, n in sorted(ARITY.items()):
         if n <= 3:
             pool = SMALL if name != "cpls" else ["-1", "0", "1", "2", "3", "4", "8"]
@@ -146,8 +154,10 @@ def cases(ctx):
         cand = []
         for name in sorted(by):
             xs = by[name]
-            cap = 70
-            cand += xs if len(xs) <= cap else rng.sample(xs, cap)
+            cap = 25
+            fixed = [x for x in xs if (x[0], x[1]) in [(n, a) for n, a in CORPUS]]
+            rest = [x for x in xs if x not in fixed]
+            cand += fixed + (rest if len(rest) <= cap else rng.sample(rest, cap))
     out = [build("o_outcome", {"name": n, "argv": a}) for n, a in cand]
     for c in out:
         c.info.setdefault("seed", seed)
